@@ -285,15 +285,29 @@ impl Sys for RegSys {
 
 pub struct C20 {
     tier: Tier,
-    configs: Vec<(Vec<usize>, u32, u32)>, // ids, merged depth, unmerged depth
+    configs: Vec<(Vec<usize>, u32, u32, usize)>, // ids, merged depth, unmerged depth, start state
+}
+
+/// start states: the empty registry, and a non-initial one where store `ids[0]` already holds two records
+fn start(ids: &[usize], k: usize) -> Vec<Op> {
+    match k {
+        0 => vec![],
+        _ => vec![Op::Create(ids[0], 0), Op::Add(ids[0], 0), Op::Add(ids[0], 1)],
+    }
 }
 
 impl C20 {
     pub fn new(tier: Tier) -> C20 {
-        let configs = match tier {
-            Tier::Quick => vec![(vec![1, 2], 6, 4)],
-            Tier::Thorough => vec![(vec![1, 2], 8, 5), (vec![1, 2, 3], 7, 4)],
-        };
+        let mut configs = Vec::new();
+        for k in 0..2 {
+            match tier {
+                Tier::Quick => configs.push((vec![1, 2], 6, 4, k)),
+                Tier::Thorough => {
+                    configs.push((vec![1, 2], 8, 5, k));
+                    configs.push((vec![1, 2, 3], 7, 4, k));
+                }
+            }
+        }
         C20 { tier, configs }
     }
 }
@@ -301,18 +315,16 @@ impl C20 {
 impl Prop for C20 {
     fn doms(&self) -> Vec<Dom> {
         vec![Dom::new("registry-bfs", self.configs.len() as u64, 1).budget(self.tier.pick(170, 3000)).note(format!(
-            "per configuration (store ids, merged depth, unmerged depth): {:?}; ops: create x2 languages, destroy, add_record x3, set_limit x2, highlight_with x2, run_search x3 per id, valid calls only; using_results read for every live id after every operation",
+            "per configuration (store ids, merged depth, unmerged depth, start state 0 = empty registry / 1 = store 1 preloaded with two records): {:?}; ops: create x2 languages, destroy, add_record x3, set_limit x2, highlight_with x2, run_search x3 per id, valid calls only; using_results read for every live id after every operation",
             self.configs
         ))]
     }
     fn run(&self, _dom: usize, idx: u64, cx: &mut Cx) {
-        let (ids, d, du) = &self.configs[idx as usize];
+        let (ids, d, du, k) = &self.configs[idx as usize];
         let sys = RegSys::new(ids.clone());
-        // initial registry, and a non-initial start: store 1 already holds two records
-        let starts = vec![vec![], vec![Op::Create(ids[0], 0), Op::Add(ids[0], 0), Op::Add(ids[0], 1)]];
-        let out = bfs(&sys, cx, "merged_", starts, *d, true, Duration::from_secs(self.tier.pick(120, 2400)), None);
-        cx.class(&format!("bfs:merged:ids{}:depth{}", ids.len(), out.depth_completed));
-        let out2 = bfs(&sys, cx, "unmerged_", vec![vec![]], *du, false, Duration::from_secs(self.tier.pick(40, 600)), Some(&out.seen));
+        let out = bfs(&sys, cx, "merged_", vec![start(ids, *k)], *d, true, Duration::from_secs(self.tier.pick(120, 2400)), None);
+        cx.class(&format!("bfs:merged:ids{}:start{}:depth{}", ids.len(), k, out.depth_completed));
+        let out2 = bfs(&sys, cx, "unmerged_", vec![start(ids, *k)], *du, false, Duration::from_secs(self.tier.pick(40, 600)), Some(&out.seen));
         if out2.missing > 0 && !out.capped {
             cx.machinery(format!("C20 dedup cross-check: {} states reached without merging are unknown to the merged search", out2.missing));
         }
